@@ -3,16 +3,16 @@
 # Confirms an agent-written seeded defect in the agent's own scratch worktree /tmp/wt/<ID>:
 # (a) suite passes with the patch, (b) demo fails with it, (c) demo passes without it,
 # (d) the patch applies to the current /repo HEAD.
-ID=$1; DEMO=${2:-"sh /tmp/wt/out/$ID/demo.sh"}
+ID=$1; ROOT=${SEED_ROOT:-/tmp/wt}; DEMO=${2:-"bash $ROOT/out/$ID/demo.sh"}
 export GOFLAGS=-mod=mod GOPROXY=off GOSUMDB=off GOTOOLCHAIN=local
-WT=/tmp/wt/$ID
+WT=$ROOT/$ID
 cd $WT || exit 2
 git checkout -q -- . ; git clean -fdq
-echo "== demo without patch"; eval "$DEMO" > /tmp/wt/out/$ID/confirm.without.log 2>&1; RC2=$?; tail -2 /tmp/wt/out/$ID/confirm.without.log; echo "demo-without rc=$RC2"
-git apply /tmp/wt/out/$ID/patch.diff || { echo "PATCH DOES NOT APPLY"; exit 2; }
-echo "== suite with patch"; go build ./... && TMPDIR=/tmp/wt/out/$ID go test -vet=off -count=1 ./... 2>&1 | grep -v "no test files" | grep -v "^ok" ; SRC=${PIPESTATUS[0]}; echo "suite rc=$SRC"
-echo "== demo with patch"; eval "$DEMO" > /tmp/wt/out/$ID/confirm.with.log 2>&1; RC1=$?; tail -3 /tmp/wt/out/$ID/confirm.with.log; echo "demo-with rc=$RC1"
+echo "== demo without patch"; eval "$DEMO" > $ROOT/out/$ID/confirm.without.log 2>&1; RC2=$?; tail -2 $ROOT/out/$ID/confirm.without.log; echo "demo-without rc=$RC2"
+git apply $ROOT/out/$ID/patch.diff || { echo "PATCH DOES NOT APPLY"; exit 2; }
+echo "== suite with patch"; go build ./... && TMPDIR=$ROOT/out/$ID go test -vet=off -count=1 ./... 2>&1 | grep -v "no test files" | grep -v "^ok" ; SRC=${PIPESTATUS[0]}; echo "suite rc=$SRC"
+echo "== demo with patch"; eval "$DEMO" > $ROOT/out/$ID/confirm.with.log 2>&1; RC1=$?; tail -3 $ROOT/out/$ID/confirm.with.log; echo "demo-with rc=$RC1"
 git checkout -q -- . ; git clean -fdq
-APPLIES=no; (cd /repo && git apply --check /tmp/wt/out/$ID/patch.diff 2>/dev/null) && APPLIES=yes
+APPLIES=no; (cd /repo && git apply --check $ROOT/out/$ID/patch.diff 2>/dev/null) && APPLIES=yes
 echo "applies to /repo HEAD: $APPLIES"
 if [ $RC1 -ne 0 ] && [ $RC2 -eq 0 ] && [ $SRC -eq 0 ]; then echo "CONFIRMED $ID"; else echo "NOT CONFIRMED $ID"; fi
